@@ -42,7 +42,9 @@ def graph_case(draw, tier):
         st.tuples(st.just("rewire"), st.integers(0, 1000))), min_size=1, max_size=6))
     # self-loops are ordinary edges of a generated network (a vertex drawn twice into one motif): they join nothing
     loops = draw(st.one_of(st.just([]), st.just([]), st.lists(st.integers(0, n - 1), unique=True, max_size=n), st.just(list(range(n)))))
-    return {"n": n, "flip": draw(st.booleans()), "edges_first": draw(st.booleans()), "loops": sorted(loops),
+    # a multigraph (as nx.configuration_model returns): some edges present twice; each copy is a bond of its own
+    multi = draw(st.sampled_from([False, False, False, True]))
+    return {"n": n, "flip": draw(st.booleans()), "edges_first": draw(st.booleans()), "loops": sorted(loops), "multi": multi,
             "edges": [list(sorted(e)) for e in edges], "labels": labels, "attrs": attrs,
             "ops": [list(o) for o in ops], "seed": draw(st.integers(0, 2 ** 31))}
 
@@ -64,6 +66,9 @@ def enumerated(tier, seed):
     # the same law on stars that carry a self-loop on every vertex
     for i, (M, phi) in enumerate([(3, 0.5), (6, 0.3)]):
         out.append({"stat": True, "M": M, "phi": phi, "T": T, "seed": seed * 100 + 50 + i, "loops": True})
+    # and on multigraph stars whose leaves hang on double bonds
+    for i, (M, phi) in enumerate([(4, 0.3), (7, 0.5)]):
+        out.append({"stat": True, "M": M, "phi": phi, "T": T, "seed": seed * 100 + 60 + i, "double": True})
     return out
 
 
@@ -124,10 +129,15 @@ def check(case):
         G = nx.star_graph(M)
         if case.get("loops"):
             G.add_edges_from((v, v) for v in G.nodes())
+        if case.get("double"):
+            # every leaf hangs on two parallel bonds: it stays attached with probability 1 - (1 - phi)^2
+            G = nx.MultiGraph(G)
+            G.add_edges_from([(0, v) for v in range(1, M + 1)])
+            phi = 1 - (1 - phi) ** 2
         cnt = [0] * (M + 1)
         with rng.seeded(case["seed"]):
             for _ in range(T):
-                s = call("percolate", bond_percolate, G, phi)
+                s = call("percolate", bond_percolate, G, case["phi"])
                 k = s * (M + 1) - 1
                 if abs(k - round(k)) > 1e-6 or not 0 <= round(k) <= M:
                     raise Violation("lattice", f"star M={M}: N*S-1 = {k}")
@@ -140,7 +150,7 @@ def check(case):
         return {"nontrivial": True, "classes": ["statistical"] + (["self_loops"] if case.get("loops") else []), "notes": {"p_binomial": p}}
     n = case["n"]
     lab = {"int": lambda i: i, "offset": lambda i: 10 * i + 7, "str": lambda i: f"v{i}"}[case["labels"]]
-    G = nx.Graph()
+    G = nx.MultiGraph() if case.get("multi") else nx.Graph()
     if not case.get("edges_first"):
         for i in range(n):
             G.add_node(lab(i))
@@ -151,6 +161,8 @@ def check(case):
             G.add_edge(lab(a), lab(b), topology=f"t{j % 2}", motif_ids=j, w=[j])
         else:
             G.add_edge(lab(a), lab(b))
+        if case.get("multi") and j % 2 == 0:
+            G.add_edge(lab(b), lab(a))  # second, parallel copy
     for i in range(n):
         G.add_node(lab(i))
     for v in case.get("loops") or ():
@@ -161,10 +173,14 @@ def check(case):
     classes = {"labels_" + case["labels"]}
     if case.get("loops"):
         classes.add("self_loops")
+    if case.get("multi"):
+        classes.add("multigraph")
     mid = False
     with rng.seeded(case["seed"]):
         for step, (op, arg) in enumerate(case["ops"]):
             if op == "rewire":
+                if case.get("multi"):
+                    continue
                 es = list(G.edges())
                 non = [(lab(i), lab(j)) for i in range(n) for j in range(i + 1, n) if not G.has_edge(lab(i), lab(j))]
                 if not es or not non:
